@@ -80,7 +80,9 @@ def _run_task(task):
     except api.Skip:
         skipped = True
     except Infeasible:
-        pass
+        if V.paths_seen > 0:
+            # raised while a contract body was running after some paths had been yielded: the remaining paths were NOT explored
+            err = 'Infeasible escaped from the unit body after %d paths: coverage truncated' % V.paths_seen
     except EngineError as e:
         err = 'EngineError: %s' % e
     except Exception as e:
